@@ -352,7 +352,7 @@ def reused_objects(R, rng, tier):
     unary = ['normsq', 'inv', 'reverse', 'conjugate', 'neg', 'norm', 'normalized', 'hodge', 'outerexp', 'sqrt', 'pow-1', 'pow-2', 'pow2', 'pow-1']
     special = {'pow-1': lambda v: v ** -1, 'pow-2': lambda v: v ** -2, 'pow2': lambda v: v ** 2}
     binary = ['gp', 'op', 'sw', 'proj', 'add', 'sub', 'ip']
-    for it in range(10 if tier == 'quick' else 150):
+    for it in range(14 if tier == 'quick' else 154):
         d = rng.choice((2, 3, 3))
         spec = {'sig': [rng.choice((1, 1, -1)) for _ in range(d)]}
         alg = algs.make_impl(spec)
@@ -365,7 +365,8 @@ def reused_objects(R, rng, tier):
         vals = fresh_vals()
         x = MultiVector.fromkeysvalues(alg, ks, np.array(vals) if arr else [np.array(v) for v in vals])
         y = MultiVector.fromkeysvalues(alg, ks, np.array(fresh_vals()))
-        ops = list(dict.fromkeys(rng.sample(unary, 4))) + rng.sample(binary, 2)
+        # every unary operator is met with both kinds of in-place update (item assignment / writing into the values) within 14 iterations
+        ops = list(dict.fromkeys([unary[it % 14], unary[(it + 7) % 14]] + rng.sample(unary, 2))) + rng.sample(binary, 2)
         def run_ops(a, xx, yy):
             out = {}
             for op in ops:
